@@ -16,7 +16,7 @@ func init() {
 		Prop: "X00", Name: "smoke", World: "CHAIN", Level: "exploration",
 		Rule:        "smoke test of the CHAIN skeleton (not a property check)",
 		QuickBudget: 20 * time.Second, ThoroughBudget: time.Minute,
-		Exec:        runSmoke,
+		Exec: runSmoke,
 	})
 }
 
